@@ -109,8 +109,9 @@ def r12_2(ctx, R):
             # one mark per accepted push / yielded item: the MARK site is not inside a loop of its own
             for sbb, st, sfn in ss:
                 loops = [h for h, body in b.loops().items() if sbb in body]
-                if role == "push-primitive" and loops:
-                    in_loop_ok = False
+                from lib_flow import loop_over_one_element_range
+                if role == "push-primitive" and any(not loop_over_one_element_range(b, ctx.flow(b), b.loops()[h]) for h in loops):
+                    in_loop_ok = False      # (a loop over `key..key + 1` -- a range-marking helper called for one slot -- is one mark)
                 if role == "merge-re-arm":
                     drain_sites = [x[0] for d in R.drain_fns for x in R.calls_to_body(b, d)]
                     for h in loops:
